@@ -20,6 +20,15 @@ for s in $seeds; do
   [ "$s" = "C04-j" ] && checks="C04 C05"   # two overlapping deploys claiming one host: C05's racing deploys
   [ "$s" = "C07-j" ] && checks="C07 C10"   # the group of a held request decided before the gate: rollout commands while paused = C10's held-across-split-change scenarios (C03 reports it too)
   [ "$s" = "C13-j" ] && checks="C13 C14"   # buffers shared after an event stream: C14's overlapping buffered responses
+  [ "$s" = "C02-k" ] && checks="C02 C06"   # read lock leaked when the snapshot cannot be written: C06's state-file-fault scenarios (follow-up deploy)
+  [ "$s" = "C04-k" ] && checks="C04 C06"   # availability check ends at the first free host: C06's rejected multi-host deploys
+  [ "$s" = "C06-k" ] && checks="C06 C12"   # snapshot encoded outside the state lock: C12's overlapping pairs
+  [ "$s" = "C08-k" ] && checks="C08 C07"   # requests held across a second pause: C07's sequences
+  [ "$s" = "C13-k" ] && checks="C13 C06"   # a refused redeploy leaves its options applied: C06 compares the installed services' options
+  [ "$s" = "C19-k" ] && checks="C19 C06"   # the same mechanism, seen through the logged headers
+  [ "$s" = "C15-k" ] && checks="C15 C17"   # router lock held for the whole request: commands return late (C17)
+  [ "$s" = "C17-k" ] && checks="C17 C08"   # recursive read lock in the pause gate: deadlock with a stop / pause (C08, C07, C18 scenarios with arriving requests)
+  [ "$s" = "C18-k" ] && checks="C18 C02"   # pooled in-flight records cancelled by a finished drain: requests failing during a redeploy
   [ "$s" = "C11-i" ] && checks="C11 C12"   # a save skipped while another snapshot is being written: overlapping commands = C12's pairs
   if grep -q '"neutralised_by"' seeded/$s/meta.json 2>/dev/null; then
     echo "$s neutralised-by-a-later-fix (see meta.json: its trigger no longer exists; demo passes on the rebased patch)" | tee -a $tmp
